@@ -637,6 +637,12 @@ func (c *Ctx) checkCompress() {
 			if npatPhi != nil && mk.Len == ssa.Value(npatPhi) {
 				isCount = true
 			}
+			// the number of distinct patterns asked from the pattern table itself
+			if call, ok := mk.Len.(*ssa.Call); ok {
+				if f := call.Common().StaticCallee(); f != nil && f.Name() == "Len" && f.Pkg != nil && strings.HasSuffix(f.Pkg.Pkg.Path(), "go-radix") {
+					isCount = true
+				}
+			}
 			if isCount {
 				if sl, ok := mk.Type().Underlying().(*types.Slice); ok {
 					if b, ok := sl.Elem().Underlying().(*types.Basic); ok && b.Kind() == types.Int {
@@ -676,6 +682,16 @@ func (c *Ctx) checkCompress() {
 							if u, ok := v.(*ssa.UnOp); ok {
 								if fa, ok := u.X.(*ssa.FieldAddr); ok && fieldName(fa.X.Type(), fa.Field) == "count" {
 									okVal = true
+								}
+								// the record handed to the callback: its int field, or the *int itself
+								rec := u.X
+								if fa, ok := rec.(*ssa.FieldAddr); ok && isIntType(u.Type()) {
+									rec = fa.X
+								}
+								if ta, ok := rec.(*ssa.TypeAssert); ok && isIntType(u.Type()) {
+									if p, ok := ta.X.(*ssa.Parameter); ok && len(cl.Params) >= 2 && p == cl.Params[1] {
+										okVal = true
+									}
 								}
 							}
 						}
